@@ -35,9 +35,28 @@ Check(i, tag, tree, rulesArg, o, byTime) ==
   /\ Relate(i, "walk-order:" \o tag, o.pairs = Cross([k \in 1 .. Len(rs) |-> Last(rs[k])], ds))
   /\ Relate(i, "exit:" \o tag, o.exit = 0)
 
+\* `test --dir`: line.dirs = <<[rules: <<names>>, tests: <<names>>]>> (one entry per directory that
+\* holds rules files, `tests` = the files of its tests sub-directory); line.ran = <<[dir, rule, test]>>:
+\* test file `test` was run against rules file `rule` of directory number `dir`
+TestDirStep(line) ==
+  LET D == 1 .. Len(line.dirs)
+      Ran(d, r, t) == \E k \in 1 .. Len(line.ran) : line.ran[k].dir = d /\ line.ran[k].rule = r /\ line.ran[k].test = t IN
+  \* a test file named after a rules file is run against that rules file ...
+  /\ Relate(line.i, "test-pairing:conventional-tests-run",
+            \A d \in D : \A ri \in 1 .. Len(line.dirs[d].rules) : \A ti \in 1 .. Len(line.dirs[d].tests) :
+              IsTestNameOf(line.dirs[d].tests[ti], line.dirs[d].rules[ri]) => Ran(d, line.dirs[d].rules[ri], line.dirs[d].tests[ti]))
+  \* ... and against no other
+  /\ Relate(line.i, "test-pairing:not-run-against-another-file",
+            \A k \in 1 .. Len(line.ran) :
+              LET x == line.ran[k] IN
+              \A ri \in 1 .. Len(line.dirs[x.dir].rules) :
+                (IsTestNameOf(x.test, line.dirs[x.dir].rules[ri]) => x.rule = line.dirs[x.dir].rules[ri]))
+  /\ Relate(line.i, "test-pairing:exit", line.exit = 0)
+
 Step(line) ==
-  /\ Check(line.i, "alphabetical", line.tree, line.rules, line.obs_a, FALSE)
-  /\ Check(line.i, "last-modified", line.tree, line.rules, line.obs_m, TRUE)
+  IF "dirs" \in DOMAIN line THEN TestDirStep(line)
+  ELSE /\ Check(line.i, "alphabetical", line.tree, line.rules, line.obs_a, FALSE)
+       /\ Check(line.i, "last-modified", line.tree, line.rules, line.obs_m, TRUE)
 
 Init == l = 1
 Next == l <= Len(Rec) /\ Step(Rec[l]) /\ l' = l + 1
